@@ -669,7 +669,7 @@ func (e *SpecEnv) evalIndex(n EIndex) Val {
 	switch t := x.G.Underlying().(type) {
 	case *types.Slice:
 		i := e.idxVal(n.I)
-		a := &Addr{rk: rElem, arr: fmt.Sprintf("(sl.arr %s)", x.T), idx: g.idxAdd(fmt.Sprintf("(sl.off %s)", x.T), i), typ: t.Elem()}
+		a := &Addr{rk: rElem, arr: fmt.Sprintf("(sl.arr %s)", x.T), idx: g.elemIdx(fmt.Sprintf("(sl.off %s)", x.T), i), typ: t.Elem()}
 		if _, isStruct := t.Elem().Underlying().(*types.Struct); isStruct && !isTimeType(t.Elem()) && !isOpaqueStruct(t.Elem()) {
 			// element struct: return a pointer so that fields can be selected
 			return Val{T: fmt.Sprintf("(pelem %s %s)", a.arr, a.idx), S: sPtr, G: types.NewPointer(t.Elem())}
